@@ -426,6 +426,8 @@ func (client *client) readLoop() {
 			if client.version == packets.Version5 && pub.Qos > packets.Qos0 {
 				err = client.tryDecServerQuota()
 				if err != nil {
+					// the packet was received all the same (the message counter above has counted it already)
+					srv.statsManager.packetReceived(packet, client.opts.ClientID)
 					return
 				}
 			}
